@@ -1,7 +1,7 @@
 """C19 — narrow-phase queries terminate (exit discipline only)."""
 from . import scopes
 from ..core.report import DOMAIN_D
-from ..rules import loops, safediv, unpack
+from ..rules import loops, safediv, unpack, misc2
 from .common import NARROW_PHASE, lib_module_names
 
 
@@ -18,4 +18,6 @@ def run(idx, rep, tier):
     mods = lib_module_names(idx)        # every loop reachable from a narrow-phase entry point (scope filter), wherever it lives
     loops.r_loop(idx, rep, mods, floor=14)
     safediv.r_safediv(idx, rep, floor=6)
+    misc2.r_basisguard(idx, rep)
+    misc2.r_dupcond(idx, rep, [m.name for m in idx.lib_modules()], floor=3)
     unpack.r_unpack(idx, rep, floor=42)
